@@ -170,8 +170,11 @@ class Ctx:
         cgen = cons.methods.get("generate")
         if cgen is None:
             raise AnalysisError(f"anchor {cons.qual}.generate not found")
-        rcalls = [c for n in ast.walk(cgen.node) if isinstance(n, (ast.Return, ast.IfExp, ast.Assign)) for c in self_calls(n)
-                  if c.func.attr in cons.methods and len(c.args) + len(c.keywords) == 2 and c.func.attr.startswith("_")]
+        # the variants are the private methods whose *result* `generate` hands back (the returned expression, through
+        # conditional expressions and locals) — not any helper that is merely asked something on the way, e.g. a
+        # two-argument predicate inside the selecting test once that test is written in line
+        rcalls = [c for c in result_exprs(cgen.node) if isinstance(c, ast.Call) and c in self_calls(c)
+                  and c.func.attr in cons.methods and len(c.args) + len(c.keywords) == 2 and c.func.attr.startswith("_")]
         gens = []
         for c in rcalls:
             if c.func.attr not in gens and c.func.attr != (bld.name if bld else None):
@@ -326,6 +329,38 @@ class Ctx:
         if args is None or self.dfs_params[2] not in args:
             return None
         return self.callable_value(fn, defs, args[self.dfs_params[2]])
+
+
+def result_exprs(fn_node: ast.AST) -> list[ast.AST]:
+    """The expressions a function's result can come from: every returned expression, followed through conditional
+    expressions, walrus / await wrappers and (all assignments of) plain locals.  Calls are leaves: what is passed to
+    them, asked inside a test or computed for another purpose is not a result."""
+    stmts = [n for s in getattr(fn_node, "body", []) for n in walk_no_nested(s)]
+    binds: dict[str, list[ast.AST]] = {}
+    for n in stmts:
+        if isinstance(n, ast.Assign) and n.value is not None:
+            for t in n.targets:
+                if isinstance(t, ast.Name):
+                    binds.setdefault(t.id, []).append(n.value)
+        elif isinstance(n, (ast.AnnAssign, ast.NamedExpr)) and isinstance(n.target, ast.Name) and n.value is not None:
+            binds.setdefault(n.target.id, []).append(n.value)
+    todo: list[ast.AST] = [n.value for n in stmts if isinstance(n, ast.Return) and n.value is not None]
+    out: list[ast.AST] = []
+    seen: set[int] = set()
+    while todo:
+        e = todo.pop(0)
+        if id(e) in seen:
+            continue
+        seen.add(id(e))
+        if isinstance(e, ast.IfExp):
+            todo[:0] = [e.body, e.orelse]
+        elif isinstance(e, (ast.NamedExpr, ast.Await)):
+            todo.insert(0, e.value)
+        elif isinstance(e, ast.Name) and e.id in binds:
+            todo[:0] = binds[e.id]
+        else:
+            out.append(e)
+    return out
 
 
 def chain_calls(c: Any) -> set[str]:
@@ -855,13 +890,69 @@ def loop_source(cx: Ctx, fn: FuncInfo, defs: dict[str, ast.AST], it: ast.AST) ->
     if isinstance(e, ast.Call) and isinstance(e.func, ast.Attribute) and txt(e.func.value) == "self" and e.func.attr in cx.feeders \
             and len(e.args) == 1 and not e.keywords:
         e = e.args[0]  # the per-component lookup (fallback formulas) keyed by the components passed in
+    elif isinstance(e, ast.Call) and txt(e.func) == "dict.fromkeys" and len(e.args) in (1, 2) and not e.keywords:
+        e = e.args[0]  # a mapping keyed by exactly the elements of the collection (terms without a fallback)
+    elif isinstance(e, ast.DictComp) and len(e.generators) == 1 and not e.generators[0].ifs and not e.generators[0].is_async \
+            and isinstance(e.key, ast.Name) and txt(e.key) == txt(e.generators[0].target):
+        e = e.generators[0].iter
     return unwrap(e), enumerated
+
+
+def reaching_value(cfg: CFG, at: int, expr: ast.AST, defs: dict[str, ast.AST], depth: int = 3) -> ast.AST:
+    """`expr` as read at CFG node `at`, with the locals that are bound more than once in the function (so that the
+    single-assignment table does not know them: e.g. one helper spliced into both arms of a branch, a local reused
+    for the next sum) replaced by the one plain assignment that reaches `at` — provided everything that assignment
+    reads is bound at most once or resolved in the same way where the assignment stands.  Otherwise left alone."""
+    import copy
+    if depth <= 0:
+        return expr
+    written: dict[str, int] = {}
+    for n in cfg.nodes:
+        for w in node_writes(cfg, n.id):
+            if isinstance(w, ast.Name):
+                written[w.id] = written.get(w.id, 0) + 1
+    out = copy.deepcopy(expr)
+    bound_here = {t.id for n in ast.walk(out) if isinstance(n, ast.comprehension) for t in ast.walk(n.target) if isinstance(t, ast.Name)}
+    subst: dict[str, ast.AST] = {}
+    for n in ast.walk(out):
+        if not (isinstance(n, ast.Name) and isinstance(n.ctx, ast.Load)) or n.id in defs or n.id in bound_here or written.get(n.id, 0) < 2:
+            continue
+        ds = reaching_defs(cfg, at, n.id)
+        a = cfg.nodes[ds[0]].ast if len(ds) == 1 and cfg.nodes[ds[0]].kind == "stmt" else None
+        v = None
+        if isinstance(a, ast.Assign) and len(a.targets) == 1 and isinstance(a.targets[0], ast.Name) and a.targets[0].id == n.id:
+            v = a.value
+        elif isinstance(a, ast.AnnAssign) and isinstance(a.target, ast.Name) and a.target.id == n.id:
+            v = a.value
+        if v is None or any(isinstance(x, (ast.Await, ast.Yield, ast.YieldFrom, ast.NamedExpr, ast.Lambda)) for x in ast.walk(v)):
+            continue
+        v = reaching_value(cfg, ds[0], v, defs, depth - 1)
+        inner = {t.id for c in ast.walk(v) if isinstance(c, ast.comprehension) for t in ast.walk(c.target) if isinstance(t, ast.Name)}
+        if all(x.id in defs or x.id in inner or written.get(x.id, 0) <= 1 for x in ast.walk(v) if isinstance(x, ast.Name)):
+            subst[n.id] = v
+    if not subst:
+        return out
+
+    class S(ast.NodeTransformer):
+        def visit_Name(self, node: ast.Name) -> ast.AST:  # noqa: N802
+            if isinstance(node.ctx, ast.Load) and node.id in subst:
+                return copy.deepcopy(subst[node.id])
+            return node
+
+    return ast.fix_missing_locations(S().visit(out))
 
 
 def first_iteration_flag(cfg: CFG, h: int, body: set[int], entry: list[int]) -> tuple[str, bool, set[int]] | None:
     """(name, its value during the first iteration, the nodes that flip it) of a boolean local that is a constant
-    before the loop and is set to the opposite constant on every path of every iteration."""
+    before the loop and holds the opposite constant at the end of every iteration: on every path it is either set to
+    that constant or was just tested to hold it already (`if first: first = False` / `else: ...`)."""
     flips: dict[str, list[tuple[int, bool]]] = {}
+    other_writes: set[str] = set()
+    for n in body:
+        a = cfg.nodes[n].ast
+        simple = cfg.nodes[n].kind == "stmt" and isinstance(a, ast.Assign) and len(a.targets) == 1 and isinstance(a.targets[0], ast.Name)
+        if not simple:
+            other_writes |= {w.id for w in node_writes(cfg, n) if isinstance(w, ast.Name)}
     for n in body:
         a = cfg.nodes[n].ast
         if cfg.nodes[n].kind == "stmt" and isinstance(a, ast.Assign) and len(a.targets) == 1 and isinstance(a.targets[0], ast.Name):
@@ -869,7 +960,7 @@ def first_iteration_flag(cfg: CFG, h: int, body: set[int], entry: list[int]) -> 
             flips.setdefault(a.targets[0].id, []).append((n, v))  # type: ignore[arg-type]
     for name, sets in sorted(flips.items()):
         vals = {v for _n, v in sets}
-        if len(vals) != 1 or None in vals:
+        if len(vals) != 1 or None in vals or name in other_writes:
             continue
         later = next(iter(vals))
         nodes = {n for n, _v in sets}
@@ -877,7 +968,11 @@ def first_iteration_flag(cfg: CFG, h: int, body: set[int], entry: list[int]) -> 
         if not init or not all(isinstance(cfg.nodes[d].ast, (ast.Assign, ast.AnnAssign)) and isinstance(cfg.nodes[d].ast.value, ast.Constant)  # type: ignore[union-attr]
                                and cfg.nodes[d].ast.value.value is (not later) for d in init):  # type: ignore[union-attr]
             continue
-        if all(e in nodes or cfg.path(e, [h], avoid=nodes, edge_ok=normal) is None for e in entry):
+        # edges on which the flag itself was tested and found to hold the later value (every write in the iteration
+        # writes that same value, so it still holds at the header)
+        atom = ("truthy", name) if later else ("not", ("truthy", name))
+        known = edges_establishing(cfg, lambda a, atom=atom: a == atom, lambda t: t, within=body, total=True)
+        if not path_avoiding_edges(cfg, [e for e in entry if e not in nodes], [h], known, avoid=nodes):
             return name, not later, nodes
     return None
 
@@ -944,7 +1039,8 @@ def check_emit(run: Run, cx: Ctx) -> None:
                 return v.value if isinstance(v, ast.Constant) and isinstance(v.value, str) else None
 
             signs = [oper_of(c) for c in opers]
-            src, enumerated = loop_source(cx, fn, defs, loop.iter)
+            walked = reaching_value(cfg, h, loop.iter, defs)
+            src, enumerated = loop_source(cx, fn, defs, walked)
             idx = None
             if enumerated and isinstance(loop.target, ast.Tuple) and len(loop.target.elts) == 2 and isinstance(loop.target.elts[0], ast.Name):
                 idx = loop.target.elts[0].id
@@ -988,7 +1084,9 @@ def check_emit(run: Run, cx: Ctx) -> None:
                     ok = ok and bool(e_later) and not path_avoiding_edges(cfg, entry, [on], e_later, avoid=[h])
                     ok = ok and not path_avoiding_edges(cfg, entry, [mn], list(e_later) + list(e_first), avoid=[h])
                     for _t, m, _lab in e_later:
-                        ok = ok and (m == on or cfg.path(m, [mn], avoid=[on], edge_ok=normal) is None)
+                        # (within this iteration: a test that only follows the term, e.g. `if not started: started =
+                        # True` at the end of the body, says nothing about the next iteration's operator)
+                        ok = ok and (m == on or m == h or cfg.path(m, [mn], avoid=[on, h], edge_ok=normal) is None)
                     for _t, m, _lab in e_first:
                         ok = ok and on not in cfg.reachable([m], avoid=[h], edge_ok=normal)
             run.check(ok, "C12.EMIT", fn.qual, f"sum loop `{txt(loop.target)} in {txt(loop.iter)[:40]}`: {shape}",
@@ -999,7 +1097,7 @@ def check_emit(run: Run, cx: Ctx) -> None:
             sources.setdefault(short, []).append(("-" if subtract else "+", txt(src)))
             source_nodes.setdefault(short, []).append(src)
             # every term once: what the loop ranges over cannot hold the same component twice
-            unique = cx.dupfree.of(fn, val(loop.iter))
+            unique = cx.dupfree.of(fn, val(walked))
             if unique is None:
                 raise AnalysisError(f"{fn.qual}: cannot tell how the collection `{txt(loop.iter)[:60]}` summed at line {loop.lineno} is built")
             run.check(unique, "C12.EMIT", fn.qual, f"sum loop over `{txt(loop.iter)[:50]}`: duplicate-free by construction",
